@@ -80,9 +80,10 @@ theorem extract_unsafe_errors (c : Cfg) (root : Path) (es : List EntryView) (fs 
   extractSeek_unsafe c root es fs h
 
 /-- The first unsafe entry that is reached stops the run with `InvalidArchive("Invalid file path")`;
-nothing is done for it or for any later entry (the state is the one the earlier entries left). -/
+nothing is done for it or for any later entry, and no recorded mode is applied (the state is the one
+the placing of the earlier entries left). -/
 theorem extract_unsafe_stops (c : Cfg) (root : Path) (pre post : List EntryView) (e : EntryView)
-    (fs fs1 : FS) (hpre : extractSeek c root pre fs = (fs1, none)) (ho : e.openErr = none)
+    (fs fs1 : FS) (hpre : placeFiles c true root pre fs = (fs1, none)) (ho : e.openErr = none)
     (hn : enclosedName e.name = none) :
     extractSeek c root (pre ++ e :: post) fs = (fs1, some .invalidPath) :=
   extractSeek_unsafe_at c root pre post e fs fs1 hpre ho hn
@@ -98,23 +99,51 @@ theorem extractStream_unsafe_errors (c : Cfg) (root : Path) (files : List EntryV
 
 /-- **Faithful extraction (seekable).** For a consistent archive and a fresh target directory the run
 succeeds and the final filesystem is exactly `treeOf`: entry by entry, the directories on the way to
-the entry exist, a file entry's path holds exactly its bytes, a recorded mode is applied. -/
+the entry exist, a file entry's path holds exactly its bytes; then the recorded modes are applied. -/
 theorem extract_faithful (c : Cfg) (root : Path) (rootMode : Nat) (es : List EntryView) (fs : FS)
     (hf : Fresh c fs root rootMode) (hc : Consistent c rootMode es) :
     extractSeek c root es fs = (treeOf c root es fs, none) :=
-  extractSeek_eq (Consistent.permCfg hc) (Consistent.disjoint hc) es (fun _ he => Consistent.entryOK hc he) fs
-    (Fresh.inv hf hc) (Fresh.kinds es hf)
+  extractSeek_eq (Consistent.permCfg hc) (Consistent.disjoint hc) (Consistent.unlocked hc)
+    (fun _ he => Consistent.entryOK hc he) fs (Fresh.inv hf hc) (Fresh.kinds es hf)
 
 /-- **Faithful extraction (streaming).** The archive has at least one entry (the streaming reader
-rejects an archive without entries) and the central records repeat the local names. -/
+rejects an archive without entries) and the central records repeat the local names.  The result is
+the SAME tree as the seekable extractor's. -/
 theorem extractStream_faithful (c : Cfg) (root : Path) (rootMode : Nat) (es : List EntryView) (fs : FS)
     (hf : Fresh c fs root rootMode) (hc : Consistent c rootMode es) (hne : es ≠ []) :
-    extractStream c root es (es.map fun e => (e.name, e.mode)) fs = (treeOfStream c root es fs, none) :=
-  extractStream_eq (Consistent.permCfg hc) (Consistent.disjoint hc) (fun _ he => Consistent.entryOK hc he) hne fs
-    (Fresh.inv hf hc) (Fresh.kinds es hf)
+    extractStream c root es (es.map fun e => (e.name, e.mode)) fs = (treeOf c root es fs, none) :=
+  extractStream_eq (Consistent.permCfg hc) (Consistent.disjoint hc) (Consistent.unlocked hc)
+    (fun _ he => Consistent.entryOK hc he) hne fs (Fresh.inv hf hc) (Fresh.kinds es hf)
 
-/-- **The extracted tree, read declaratively (seekable).** Under the hypotheses of `extract_faithful`,
-below the target directory there is afterwards
+/-- **Any permission bits.** For names made of ordinary components only (`PlainNames`: no "..", no
+final "."), clause 5 of `Consistent` asks nothing of the RECORDED modes: with clauses 1–4, a umask whose
+defaults keep owner write+search (any sane one) and a target directory the caller may write to, the
+archive is consistent whatever the modes are — read-only or unsearchable directories before or after
+their contents, read-only files repeated later, mode 000 — also for an unprivileged caller. -/
+theorem consistent_of_plain (c : Cfg) (rootMode : Nat) (es : List EntryView)
+    (h1 : ∀ e ∈ es, (enclosedName e.name).isSome = true ∧ e.openErr = none ∧ e.readErr = none)
+    (h2 : ∀ e ∈ es, isDirName e.name = false → tailDot e.name = false ∧ lastNormal (relComps e.name) = true)
+    (h4 : ∀ e1 ∈ es, ∀ e2 ∈ es, ∀ p ∈ (filePath e1).toList, p ∉ dirPaths e2)
+    (hd : hasBits c.dirMode 0o300 = true) (hfm : hasBits c.fileMode 0o200 = true)
+    (hr : hasBits rootMode 0o300 = true) (hp : PlainNames es) : Consistent c rootMode es :=
+  ⟨h1, h2, fun e he _ hdot => absurd hdot (by rw [(hp e he).1]; simp), h4,
+    Or.inr ⟨hd, hfm, hr, unlocked_of_plain hp⟩⟩
+
+/-- **Faithful extraction, any permission bits** (`extract_faithful` ∘ `consistent_of_plain`). -/
+theorem extract_faithful_any_modes (c : Cfg) (root : Path) (rootMode : Nat) (es : List EntryView) (fs : FS)
+    (hf : Fresh c fs root rootMode)
+    (h1 : ∀ e ∈ es, (enclosedName e.name).isSome = true ∧ e.openErr = none ∧ e.readErr = none)
+    (h2 : ∀ e ∈ es, isDirName e.name = false → tailDot e.name = false ∧ lastNormal (relComps e.name) = true)
+    (h4 : ∀ e1 ∈ es, ∀ e2 ∈ es, ∀ p ∈ (filePath e1).toList, p ∉ dirPaths e2)
+    (hd : hasBits c.dirMode 0o300 = true) (hfm : hasBits c.fileMode 0o200 = true)
+    (hr : hasBits rootMode 0o300 = true) (hp : PlainNames es) :
+    extractSeek c root es fs = (treeOf c root es fs, none) ∧
+      (es ≠ [] → extractStream c root es (es.map fun e => (e.name, e.mode)) fs = (treeOf c root es fs, none)) :=
+  have hc := consistent_of_plain c rootMode es h1 h2 h4 hd hfm hr hp
+  ⟨extract_faithful c root rootMode es fs hf hc, extractStream_faithful c root rootMode es fs hf hc⟩
+
+/-- **The extracted tree, read declaratively.** Under the hypotheses of `extract_faithful`, below the
+target directory there is afterwards
 (a) nothing but what the archive describes: every directory is the target itself or a directory on
     the way to (or named by) some entry, every regular file is the path of some file entry;
 (b) every directory on the way to, or named by, any entry;
@@ -136,36 +165,18 @@ theorem extract_tree (c : Cfg) (root : Path) (rootMode : Nat) (es : List EntryVi
   have hall : ∀ e ∈ es, EntryOK c es e := fun _ he => Consistent.entryOK hc he
   have hi := Fresh.inv hf hc
   have hk := Fresh.kinds es hf
-  refine ⟨?_, ?_, ?_⟩
-  · exact (treeOf_inv hpc hDF es hall fs hi hk).2.1
-  · exact treeOf_dirs hpc hDF es hall fs hi hk
-  · intro pre e post hes hlast
-    subst hes
-    exact treeOf_last hpc hDF pre post e hall fs hi hk hlast
-
-/-- **The extracted tree, read declaratively (streaming).** -/
-theorem extractStream_tree (c : Cfg) (root : Path) (rootMode : Nat) (es : List EntryView) (fs : FS)
-    (hf : Fresh c fs root rootMode) (hc : Consistent c rootMode es) (hne : es ≠ []) :
-    (∀ r n, (extractStream c root es (es.map fun e => (e.name, e.mode)) fs).1.lookup (root ++ r) = some n →
-      match n with
-      | .dir _ => r = [] ∨ ∃ e ∈ es, r ∈ dirPaths e
-      | .file _ _ => ∃ e ∈ es, filePath e = some r) ∧
-    (∀ e ∈ es, ∀ r ∈ dirPaths e,
-      ∃ m, (extractStream c root es (es.map fun e => (e.name, e.mode)) fs).1.lookup (root ++ r) = some (.dir m)) ∧
-    (∀ pre e post, es = pre ++ e :: post → (∀ e' ∈ post, target e' ≠ target e) →
-      ∃ n, (extractStream c root es (es.map fun e => (e.name, e.mode)) fs).1.lookup (root ++ target e) = some n ∧
-        NodeIs e n) := by
-  rw [extractStream_faithful c root rootMode es fs hf hc hne]
-  have hpc := Consistent.permCfg hc
-  have hDF := Consistent.disjoint hc
-  have hall : ∀ e ∈ es, EntryOK c es e := fun _ he => Consistent.entryOK hc he
-  have hi := Fresh.inv hf hc
-  have hk := Fresh.kinds es hf
-  obtain ⟨h1, h2⟩ := treeOfStream_kinds_dirs hpc hDF hall fs hi hk
+  obtain ⟨h1, h2⟩ := treeOf_kinds_dirs hpc hDF hall fs hi hk
   refine ⟨h1, h2, ?_⟩
   intro pre e post hes hlast
   subst hes
-  exact treeOfStream_last hpc hDF pre post e hall fs hi hk hlast
+  exact treeOf_last hpc hDF pre post e hall fs hi hk hlast
+
+/-- The streaming extractor leaves the same tree (`extractStream_faithful`), so `extract_tree` reads
+for it word for word. -/
+theorem extractStream_tree (c : Cfg) (root : Path) (rootMode : Nat) (es : List EntryView) (fs : FS)
+    (hf : Fresh c fs root rootMode) (hc : Consistent c rootMode es) (hne : es ≠ []) :
+    (extractStream c root es (es.map fun e => (e.name, e.mode)) fs).1 = (extractSeek c root es fs).1 := by
+  rw [extractStream_faithful c root rootMode es fs hf hc hne, extract_faithful c root rootMode es fs hf hc]
 
 /-! ### non-vacuity -/
 
@@ -231,11 +242,46 @@ theorem create_dir_all_dot_fails :
 -- clause 4 is needed: a file and a directory at the same path
 example : (extractSeek cfg root0 [{ name := "x".toList }, { name := "x/y".toList }] fs0).2
     = some (.fs .notADirectory) := by decide
--- clause 5 is needed (unprivileged caller): a directory made unwritable before its child arrives
-example : (extractSeek cfg root0 [{ name := "d/".toList, mode := some 0o40555 }, { name := "d/f".toList }] fs0).2
-    = some (.fs .permissionDenied) := by decide
--- … the streaming extractor applies modes last and succeeds on the same archive
-example : (extractStream cfg root0 [{ name := "d/".toList }, { name := "d/f".toList }]
-    [("d/".toList, some 0o40555), ("d/f".toList, none)] fs0).2 = none := by decide
+/-! #### any permission bits, unprivileged caller (F2: these failed before the repair of the crate) -/
+
+-- a read-only directory listed BEFORE the file inside it
+private def roDir : List EntryView :=
+  [{ name := "d/".toList, mode := some 0o40555 }, { name := "d/f".toList, data := [120] }]
+-- a read-only file, then the same name again
+private def roDup : List EntryView :=
+  [{ name := "f".toList, data := [1], mode := some 0o100444 }, { name := "f".toList, data := [2] }]
+-- an unsearchable directory before its contents, which carry modes; nested; the top repeated
+private def locked : List EntryView :=
+  [{ name := "a/".toList, mode := some 0o40000 }, { name := "a/b/".toList, mode := some 0o40700 },
+   { name := "a/b/c".toList, data := [122], mode := some 0o100000 }, { name := "a/".toList, mode := some 0o40111 }]
+
+example : PlainNames roDir ∧ PlainNames roDup ∧ PlainNames locked := by decide
+example : Consistent cfg 0o755 roDir ∧ Consistent cfg 0o755 roDup ∧ Consistent cfg 0o755 locked := by decide
+example : (extractSeek cfg root0 roDir fs0).2 = none := by decide
+example : (extractSeek cfg root0 roDir fs0).1.lookup ["t".toList, "d".toList] = some (.dir 0o555) := by decide
+example : (extractSeek cfg root0 roDir fs0).1.lookup ["t".toList, "d".toList, "f".toList]
+    = some (.file [120] 0o644) := by decide
+example : (extractSeek cfg root0 roDup fs0).2 = none := by decide
+example : (extractSeek cfg root0 roDup fs0).1.lookup ["t".toList, "f".toList] = some (.file [2] 0o444) := by decide
+example : (extractSeek cfg root0 locked fs0).2 = none := by decide
+example : (extractSeek cfg root0 locked fs0).1.lookup ["t".toList, "a".toList] = some (.dir 0o111) := by decide
+example : (extractSeek cfg root0 locked fs0).1.lookup ["t".toList, "a".toList, "b".toList, "c".toList]
+    = some (.file [122] 0) := by decide
+example : (extractStream cfg root0 locked (locked.map fun e => (e.name, e.mode)) fs0).2 = none := by decide
+
+/-- Clause 5 (`Unlocked`) is needed for names with ".." or a final ".", whatever the order of
+application: `chmod` takes a path, and these two paths are each walked through the other's directory. -/
+theorem chmod_by_path_lockout :
+    (extractSeek cfg root0 [{ name := "a/../b/".toList, mode := some 0o40000 },
+      { name := "b/../a/".toList, mode := some 0o40000 }] fs0).2 = some (.fs .permissionDenied) ∧
+    (extractSeek cfg root0 [{ name := "b/../a/".toList, mode := some 0o40000 },
+      { name := "a/../b/".toList, mode := some 0o40000 }] fs0).2 = some (.fs .permissionDenied) := by decide
+
+-- … and "./" with mode 000 followed by "./" again: looking up "." needs search permission
+example : (extractSeek cfg root0 [{ name := "./".toList, mode := some 0o40000 },
+    { name := "./".toList, mode := some 0o40755 }] fs0).2 = some (.fs .permissionDenied) := by decide
+-- the superuser is never locked out
+example : Consistent { cfg with priv := true } 0o755 [{ name := "a/../b/".toList, mode := some 0o40000 },
+    { name := "b/../a/".toList, mode := some 0o40000 }] := by decide
 
 end ZipVerif.Props.C07
